@@ -7,6 +7,6 @@ mkdir -p build evidence
 /venv/bin/python tools/regen_all.py
 cd coq
 coq_makefile -f _CoqProject -o Makefile >/dev/null
-timeout 3000 make -j16 2>&1 | grep -v '^\(Axioms:\|  \|Classical\|Functional\|COQDEP\|Closed\)' | tail -50
+timeout 3000 make -k -j16 2>&1 | grep -v '^\(Axioms:\|  \|Classical\|Functional\|COQDEP\|Closed\)' | tail -50
 cd ..
 /venv/bin/python -c "import sys; sys.path.insert(0,'tools'); import vlib; print(vlib.build_lib())"
